@@ -326,6 +326,8 @@ TraceEnd ==
                 \* every recorded amount of work equals the number of right-hand-side evaluations the step's problem object
                 \* actually received between the step's start and end callbacks (counted independently of the work counters)
                 \cup V(ln.exc # "none" \/ ~ ln.has_stats \/ ln.work_ok, "stats.work_counters")
+                \* the statistics a run returned remain the record of THAT run when the controller is used again
+                \cup V(ln.prev_stats_unchanged, "stats.earlier_run_unchanged")
                 \cup V(ln.exc # "none" \/ ~ ln.has_stats \/ obsStats = stats, "stats.entries")
                 \cup V(ln.exc # "none" \/ ~ ln.has_stats \/ \A T \in PT : OnePerAccepted(obsStats, T, acc), "stats.one_per_step")
                 \cup V(ln.exc # "none" \/ ~ ln.has_stats \/ NiterRecorded(obsStats, acc), "stats.niter")
